@@ -123,5 +123,25 @@ func checkC17(e *RunEnv) *CheckResult {
 		CheckTrans: c17Trans,
 		CheckState: c17State,
 	}
-	return runSpec(e, spec, nil)
+	var extra int
+	return runSpecWith(e, spec, func(x *Explorer) {
+		base := x.BuildState(seedFiles)
+		if base == nil {
+			return
+		}
+		// ignore files whose last line has no line terminator; a nested directory entry longer than 255 bytes
+		deep := "gen/" + strings.Repeat("a", 90) + "/" + strings.Repeat("b", 90) + "/" + strings.Repeat("c", 90) + "/out"
+		var cs []Case
+		for _, ig := range []string{"build/\n*.log", "*.log\nbuild/", "*.log", "build/", deep + "/\n", "*.log\n" + deep + "/", "sub/build/\n"} {
+			for _, arg := range []string{".", "gen", "x.log", "build", "sub", deep + "/f"} {
+				t := []string{"has-ignore-file"}
+				cs = append(cs, Case{Base: base, BaseName: "S0+files", BaseSeed: seedFiles, Probe: true,
+					Steps: []Step{Write(deep+"/f", "generated\n"), Write("gen/keep", "kept\n"), Write(".goitignore", ig), Run("add", arg).WithTags(t...), Run("commit", "-m", "m").WithTags(t...), Run("reset", "--hard", "HEAD@{0}").WithTags(t...)}})
+			}
+		}
+		extra = x.RunCases(cs)
+	}, func(x *Explorer, cov map[string]interface{}) {
+		cov["ignore_file_shape_cases"] = extra
+		cov["states"] = x.States + extra
+	})
 }
